@@ -149,6 +149,8 @@ namespace bloch::update {
                 }
                 if (start == pos)
                     break;
+                if (pos - start > 9)
+                    return SemVer{};  // not a sane version component; std::stoi would throw on it
                 int value = std::stoi(v.substr(start, pos - start));
                 if (idx == 0)
                     sem.major = value;
